@@ -408,6 +408,35 @@ func runC17(c *vlib.Check) {
 				}
 			}
 		}
+		// retained names: the byte slices returned by MarshalText for all values of the type are kept and read only after the
+		// last call (a caller building a name table): each must still hold its own name
+		{
+			type kept struct {
+				name string
+				txt  []byte
+			}
+			var ks []kept
+			var vns []string
+			for vn := range vals {
+				vns = append(vns, vn)
+			}
+			sort.Strings(vns)
+			for _, vn := range vns {
+				pv := reflect.New(t)
+				pv.Elem().SetUint(uint64(vals[vn]))
+				if m, ok := pv.Interface().(encoding.TextMarshaler); ok {
+					if txt, err := m.MarshalText(); err == nil {
+						ks = append(ks, kept{vn, txt})
+					}
+				}
+			}
+			for _, k := range ks {
+				if string(k.txt) != k.name {
+					v("typed-enum-marshaltext-retained", "%s: the bytes returned by MarshalText for %q read %q after the later calls", ename, k.name, k.txt)
+					break
+				}
+			}
+		}
 		if foreign != "" {
 			back := reflect.New(t)
 			if u, ok := back.Interface().(encoding.TextUnmarshaler); ok {
